@@ -202,4 +202,12 @@ class Realised:
         inv[np.array(idx)] = np.arange(n)
         T = T[:, inv]          # columns to spec order
         R = np.rint(T)
-        return R.astype(np.int64), float(np.abs(T - R).max()) if T.size else 0.0
+        # residual per 3x3 block, relative to 1 + 1e-3 * max|block|: the tolerance 1e-6 on it means
+        # 1e-6 absolute (a wrong integer is off by >= 1) plus 1e-9 of the block's magnitude (binary64 round-off of
+        # the inputs, e.g. positions(cell) - positions(supercell), is relative to the block, not to the smallest one)
+        if T.size:
+            blk = np.abs(T - R).max(axis=(2, 3)) / (1.0 + 1e-3 * np.abs(R).max(axis=(2, 3)))
+            self.last_abs_resid = float(np.abs(T - R).max())
+            return R.astype(np.int64), float(blk.max())
+        self.last_abs_resid = 0.0
+        return R.astype(np.int64), 0.0
